@@ -646,6 +646,10 @@ var Corpus = []Scenario{
 			cmd(v)
 		}
 		x.Rounds(2)
+		// the canary is paused now (state Canary Paused, status.canary still set): rolling-update pause and freeze still have to refuse
+		for _, v := range []string{"ru-pause", "ru-unpause", "freeze", "unfreeze"} {
+			cmd(v)
+		}
 		cmd("canary-unpause")
 		cmd("canary-unpause")
 		x.Rounds(2)
@@ -777,6 +781,20 @@ var Corpus = []Scenario{
 		x.D.Converge(20)
 		x.Template("B")
 		x.D.Converge(30)
+	}},
+	{"template-names-another-namespace", []string{"C12", "C10", "C02"}, func(x Scn) {
+		// ns1/foo rolls out a template whose metadata names namespace ns2, where a same-named ExtendedDaemonSet lives
+		k2 := "ns2/foo"
+		x.D.Strategy[Key] = BaseStrategy()
+		x.D.Strategy[k2] = BaseStrategy()
+		for i := 1; i <= 2; i++ {
+			x.do(Action{Op: "NodeAdd", N: "n" + strconv.Itoa(i), V: "A,B,D", W: "c;z=z1"})
+		}
+		x.do(Action{Op: "CreateEDS", Key: Key, T: "A"})
+		x.do(Action{Op: "CreateEDS", Key: k2, T: "A"})
+		x.D.Converge(15)
+		x.Template("D")
+		x.D.Converge(40)
 	}},
 	{"two-eds-overlapping-labels", []string{"C12", "C13", "C02"}, func(x Scn) {
 		// the second ExtendedDaemonSet carries, among its own metadata labels, the name label of the first one (e.g. a manifest
